@@ -109,6 +109,53 @@ class SymBuf:
         return "SymBuf(%d)" % len(self.items)
 
 
+class ArrBuf:
+    """Contract of a fixed-length `bytearray` whose content is a z3 array: symbolic index reads
+    and writes without enumeration (memory images, card / ROM data)."""
+
+    def __init__(self, name, n):
+        self.name = name
+        self.arr = z3.Array(name, z3.BitVecSort(W), z3.BitVecSort(8))
+        self.init = self.arr
+        self.n = n
+
+    def __len__(self):
+        return self.n
+
+    def _chk(self, i):
+        if isinstance(i, slice):
+            raise core.Unsupported("slice of an array-backed buffer")
+        if isinstance(i, int):
+            if i < 0:
+                i += self.n
+            if not 0 <= i < self.n:
+                raise IndexError("bytearray index out of range")
+            return i
+        core._require(z3.And(T(i) >= 0, T(i) < self.n), "array-backed buffer index out of range")
+        return i
+
+    def __getitem__(self, i):
+        i = self._chk(i)
+        return SymInt(z3.ZeroExt(W - 8, z3.Select(self.arr, T(i))), 0, 255)
+
+    def __setitem__(self, i, v):
+        i = self._chk(i)
+        if isinstance(v, int) and not 0 <= v < 256:
+            raise ValueError("byte must be in range(0, 256)")
+        if isinstance(v, SymInt):
+            core._require(z3.And(v.t >= 0, v.t < 256), "byte out of range(0,256)")
+        self.arr = z3.Store(self.arr, T(i), z3.Extract(7, 0, T(v)))
+
+    def __bool__(self):
+        return self.n > 0
+
+    def now(self, i):
+        return z3.Select(self.arr, T(i))
+
+    def was(self, i):
+        return z3.Select(self.init, T(i))
+
+
 def _has_sym(x):
     return any(isinstance(b, (SymInt, SymBool)) for b in x)
 
@@ -117,6 +164,8 @@ def bytearray_shim(x=(), *a):
     """`bytearray` for modules under proof: identical on concrete data, SymBuf otherwise."""
     if isinstance(x, SymBuf):
         return SymBuf(x.items, x.read_log)
+    if isinstance(x, ArrBuf):
+        return x
     if isinstance(x, (int, builtins.bytes, builtins.bytearray, str)):
         return builtins.bytearray(x, *a)
     items = list(x)
@@ -127,7 +176,7 @@ def bytearray_shim(x=(), *a):
 
 class _BytearrayMeta(type):
     def __instancecheck__(cls, o):
-        return isinstance(o, (builtins.bytearray, SymBuf))
+        return isinstance(o, (builtins.bytearray, SymBuf, ArrBuf))
 
     def __call__(cls, *a):
         return bytearray_shim(*a)
